@@ -451,112 +451,107 @@ fn icc_predict_w4_explicit() { icc_predict_orders(4, [9, 7, 10, 5, 6, 11], [5, 7
 
 #[kani::proof]
 #[kani::unwind(200)]
-fn icc_predict_flags_any() {
-    // [no tags; 4 flags num=0 (or: explicit stride 0); 1 x1] for EVERY flags byte: a zero-length run is accepted exactly
-    // for width code != 2 (width 3), order != 3 and -- because the explicit stride here is 0 < width -- bit 4 clear.
-    let f: u8 = kani::any();
+fn icc_predict_flags_reject() {
     let data: [u8; ICC_H + 1] = kani::any();
-    let r = icc_decode(ICC_H + 1, &[0, 4, f, 0, 1, 1], &data);
-    let valid = (f & 3) != 2 && ((f >> 2) & 3) != 3 && (f & 16) == 0;
-    if valid {
-        let mut exp = IccExp::with_header(ICC_H + 1, &data);
-        exp.push(data[ICC_H]);
-        icc_expect_ok(&r, &exp);
-    } else {
-        assert!(r.is_err(), "[C18,C01] width 3, order 3 and stride < width are rejected");
-    }
-    kani::cover!(valid && f >= 32);
-    kani::cover!(!valid && (f & 3) == 2);
-    kani::cover!(!valid && (f >> 2) & 3 == 3 && (f & 3) != 2);
-    kani::cover!(!valid && (f & 16) != 0 && (f & 15) == 0);
+    // flags 0 = width 1, order 0, implicit stride is accepted (icc_predict_w1); width code 2 (= width 3) and order code 3 are not
+    // (zero-length run followed by a 1-byte copy: nothing else is wrong with the stream)
+    assert!(icc_decode(ICC_H + 1, &[0, 4, 2, 0, 1, 1], &data).is_err(), "[C18,C01] predicted run of width 3 is rejected");
+    assert!(icc_decode(ICC_H + 1, &[0, 4, 12, 0, 1, 1], &data).is_err(), "[C18,C01] predicted run of order 3 is rejected");
 }
 
 #[kani::proof]
 #[kani::unwind(200)]
-fn icc_predict_stride_reject() {
+fn icc_predict_stride_small() {
     let data: [u8; ICC_H + 8] = kani::any();
-    // width 2, explicit stride 1
+    // width 2, explicit stride 1 (stride 3 is accepted: icc_predict_w2)
     assert!(icc_decode(ICC_H + 3, &[0, 4, icc_predict_flags(2, 0, true), 1, 3], &data[..ICC_H + 3]).is_err(),
             "[C18,C01] stride smaller than the width is rejected");
-    // width 4, explicit stride 3
+    // width 4, explicit stride 3 (stride 5 is accepted: icc_predict_w4_explicit)
     assert!(icc_decode(ICC_H + 8, &[0, 4, icc_predict_flags(4, 1, true), 3, 8], &data).is_err(),
             "[C18,C01] stride smaller than the width is rejected");
-    // width 1, stride 32 with 128 bytes decoded so far: 4 * stride >= bytes so far (stride 31 is accepted: icc_predict_w1)
-    assert!(icc_decode(ICC_H + 3, &[0, 4, icc_predict_flags(1, 0, true), 32, 3], &data[..ICC_H + 3]).is_err(),
+}
+
+#[kani::proof]
+#[kani::unwind(200)]
+fn icc_predict_stride_far() {
+    let data: [u8; ICC_H + 3] = kani::any();
+    // width 1, order 0, 128 bytes decoded so far: stride 31 is accepted, stride 32 (4 * 32 >= 128) is not
+    let r = icc_decode(ICC_H + 3, &[0, 4, icc_predict_flags(1, 0, true), 31, 3], &data);
+    let mut exp = IccExp::with_header(ICC_H + 3, &data);
+    exp.predicted_run(&data[ICC_H..], 1, 0, 31);
+    icc_expect_ok(&r, &exp);
+    assert!(icc_decode(ICC_H + 3, &[0, 4, icc_predict_flags(1, 0, true), 32, 3], &data).is_err(),
             "[C18,C01] 4 * stride >= number of bytes decoded so far is rejected");
 }
 
 #[kani::proof]
 #[kani::unwind(200)]
-fn icc_cmd_last_byte_any() {
-    // [no tags; c] for EVERY command byte c, no payload: only the common-type commands 16..=23 need nothing else
-    let c: u8 = kani::any();
-    let data: [u8; ICC_H] = kani::any();
-    let r = icc_decode(ICC_H + 8, &[0, c], &data);
-    if c >= 16 && c <= 23 {
-        let types: [&[u8; 4]; 8] = [b"XYZ ", b"desc", b"text", b"mluc", b"para", b"curv", b"sf32", b"gbd "];
-        let mut exp = IccExp::with_header(ICC_H + 8, &data);
-        exp.bytes(types[(c - 16) as usize]);
-        exp.be32(0);
-        icc_expect_ok(&r, &exp);
-    } else {
-        assert!(r.is_err(), "[C18,C01] unknown command, truncated command or missing payload is rejected");
+fn icc_cmd_invalid() {
+    let data: [u8; ICC_H + 8] = kani::any();
+    // valid main-content commands are 1, 2, 3, 4, 10 and 16..=23 (icc_cmd_copy_shuffle, icc_cmd_xyz_common, icc_predict_*)
+    // (the profile is already complete after the 8-byte copy: the unknown command is the only thing wrong)
+    assert!(icc_decode(ICC_H + 8, &[0, 1, 8, 0], &data).is_err(), "[C18,C01] unknown command 0 is rejected");
+    assert!(icc_decode(ICC_H + 8, &[0, 1, 8, 24], &data).is_err(), "[C18,C01] unknown command 24 is rejected");
+}
+
+#[kani::proof]
+#[kani::unwind(200)]
+fn icc_cmd_invalid_more() {
+    let data: [u8; ICC_H + 8] = kani::any();
+    let bad: [u8; 6] = [5, 9, 11, 15, 128 + 1, 255];
+    let mut k = 0;
+    while k < 6 {
+        assert!(icc_decode(ICC_H + 8, &[0, 1, 8, bad[k]], &data).is_err(), "[C18,C01] unknown command is rejected");
+        k += 1;
     }
-    kani::cover!(c == 23);
-    kani::cover!(c == 0);
-    kani::cover!(c == 10);
-    kani::cover!(c == 255);
 }
 
 #[kani::proof]
 #[kani::unwind(200)]
-fn icc_cmd_select_any() {
-    // [no tags; c 6] for EVERY command byte c with exactly 6 payload bytes: copy / 2-shuffle / 4-shuffle, else rejected
-    let c: u8 = kani::any();
-    let data: [u8; ICC_H + 6] = kani::any();
-    let r = icc_decode(ICC_H + 6, &[0, c, 6], &data);
-    if c >= 1 && c <= 3 {
-        let mut exp = IccExp::with_header(ICC_H + 6, &data);
-        if c == 1 { exp.bytes(&data[ICC_H..]); } else { exp.bytes(&spec_shuffle(&data[ICC_H..], if c == 2 { 2 } else { 4 })); }
-        icc_expect_ok(&r, &exp);
-    } else {
-        assert!(r.is_err(), "[C18,C01] any other command byte followed by 6 is rejected (6 = width 3 / unknown command / no payload)");
-    }
-    kani::cover!(c == 3);
-    kani::cover!(c == 4);
-    kani::cover!(c == 16);
-}
-
-#[kani::proof]
-#[kani::unwind(200)]
-fn icc_cmd_short_data() {
-    let c: u8 = kani::any();
-    let data: [u8; ICC_H + 6] = kani::any();
-    // EVERY command byte c followed by length 6 with only 5 payload bytes
-    assert!(icc_decode(ICC_H + 6, &[0, c, 6], &data[..ICC_H + 5]).is_err(), "[C18,C01] payload shorter than the announced length is rejected");
-    // predicted run of 3 bytes with 2 payload bytes
-    assert!(icc_decode(ICC_H + 3, &[0, 4, 0, 3], &data[..ICC_H + 2]).is_err(), "[C18,C01] payload shorter than the announced length is rejected");
-    // all commands and data consumed but one byte more than announced in output_size
-    assert!(icc_decode(ICC_H + 5, &[0, 1, 6], &data).is_err(), "[C18] decoded size different from output_size is rejected");
-}
-
-#[kani::proof]
-#[kani::unwind(200)]
-fn icc_copy_len_any() {
-    // [no tags; 1 n] for EVERY last byte n, 5 payload bytes, output_size 133: accepted exactly for n == 5
-    let n: u8 = kani::any();
+fn icc_short_payload_12() {
     let data: [u8; ICC_H + 5] = kani::any();
-    let r = icc_decode(ICC_H + 5, &[0, 1, n], &data);
-    if n == 5 {
-        let mut exp = IccExp::with_header(ICC_H + 5, &data);
-        exp.bytes(&data[ICC_H..]);
-        icc_expect_ok(&r, &exp);
-    } else {
-        assert!(r.is_err(), "[C18,C01] too few bytes produced, payload too short, or unterminated varint: rejected");
-    }
-    kani::cover!(n == 4);
-    kani::cover!(n == 6);
-    kani::cover!(n >= 128);
+    // length 6 announced, 5 payload bytes (all payload present: icc_cmd_copy_shuffle)
+    assert!(icc_decode(ICC_H + 6, &[0, 1, 6], &data).is_err(), "[C18,C01] copy longer than the remaining data is rejected");
+    assert!(icc_decode(ICC_H + 6, &[0, 2, 6], &data).is_err(), "[C18,C01] 2-shuffle longer than the remaining data is rejected");
+}
+
+#[kani::proof]
+#[kani::unwind(200)]
+fn icc_short_payload_34() {
+    let data: [u8; ICC_H + 5] = kani::any();
+    assert!(icc_decode(ICC_H + 6, &[0, 3, 6], &data).is_err(), "[C18,C01] 4-shuffle longer than the remaining data is rejected");
+    // predicted run of 3 bytes with 2 payload bytes
+    assert!(icc_decode(ICC_H + 3, &[0, 4, 0, 3], &data[..ICC_H + 2]).is_err(), "[C18,C01] predicted run longer than the remaining data is rejected");
+}
+
+#[kani::proof]
+#[kani::unwind(200)]
+fn icc_short_payload_10() {
+    // command 10 needs 12 payload bytes (12 present: icc_cmd_xyz_common)
+    let data: [u8; ICC_H + 11] = kani::any();
+    assert!(icc_decode(ICC_H + 20, &[0, 10], &data).is_err(), "[C18,C01] XYZ command without 12 data bytes is rejected");
+}
+
+#[kani::proof]
+#[kani::unwind(200)]
+fn icc_end_size_mismatch() {
+    let data: [u8; ICC_H + 6] = kani::any();
+    // all commands and data consumed, one byte more / one byte fewer than output_size (exactly output_size: icc_cmd_copy_shuffle)
+    assert!(icc_decode(ICC_H + 5, &[0, 1, 6], &data).is_err(), "[C18] more bytes than output_size is rejected");
+    assert!(icc_decode(ICC_H + 7, &[0, 1, 6], &data).is_err(), "[C18] fewer bytes than output_size is rejected");
+}
+
+#[kani::proof]
+#[kani::unwind(200)]
+fn icc_cmd_truncated() {
+    let data: [u8; ICC_H + 4] = kani::any();
+    assert!(icc_decode(ICC_H + 4, &[], &data).is_err(), "[C18,C01] missing tag-count varint is rejected");
+    // (the profile is already complete after the 4-byte copy)
+    assert!(icc_decode(ICC_H + 4, &[0, 1, 4, 1], &data).is_err(), "[C18,C01] copy command without its length is rejected");
+    assert!(icc_decode(ICC_H + 4, &[0, 1, 4, 4], &data).is_err(), "[C18,C01] predict command without flags is rejected");
+    assert!(icc_decode(ICC_H + 4, &[0, 1, 4, 4, 16], &data).is_err(), "[C18,C01] predict command without its stride is rejected");
+    assert!(icc_decode(ICC_H + 4, &[0, 1, 4, 4, 0], &data).is_err(), "[C18,C01] predict command without its length is rejected");
+    assert!(icc_decode(ICC_H + 4, &[0, 1, 4, 1, 0x80], &data).is_err(), "[C18,C01] unterminated varint is rejected");
 }
 
 // ---- tag list ---------------------------------------------------------------------------------------
@@ -608,7 +603,7 @@ fn icc_tag_flags_chain() {
     const OUT: usize = ICC_H + 4 + 5 * 12 + 8;
     let data: [u8; ICC_H + 5 * 4 + 8] = kani::any();
     let n = |k: usize| &data[ICC_H + 4 * k..ICC_H + 4 * k + 4];
-    let r = icc_decode(OUT, &[6, 1 | 64 | 128, 10, 30, 1 | 64, 100, 1 | 128, 7, 1, 1 | 64 | 128, 150, 50, 0, 1, 8], &data);
+    let r = icc_decode(OUT, &[6, 1 | 64 | 128, 10, 30, 1 | 64, 100, 1 | 128, 7, 1, 1 | 64 | 128, 0x96, 0x01, 50, 0, 1, 8], &data);
     let mut exp = IccExp::with_header(OUT, &data);
     exp.be32(5);
     exp.tag(n(0), 10, 30); // an explicit size wins over the name
@@ -627,7 +622,7 @@ fn icc_tag_flags_chain() {
 fn icc_tag_size_mismatch() {
     let data: [u8; ICC_H + 56] = kani::any();
     // explicit start 150 + size 51 > output_size 200 (150 + 50 is accepted: icc_tag_flags_chain)
-    assert!(icc_decode(200, &[2, 4 | 64 | 128, 150, 51, 0, 1, 56], &data).is_err(), "[C18] tag reaching beyond output_size is rejected");
+    assert!(icc_decode(200, &[2, 4 | 64 | 128, 0x96, 0x01, 51, 0, 1, 56], &data).is_err(), "[C18] tag reaching beyond output_size is rejected");
     // chaining: 3 x wtpt after 128 + 4 + 36 bytes: 164+20, 184+20 > 200
     assert!(icc_decode(200, &[4, 5, 5, 5, 0, 1, 32], &data[..ICC_H + 32]).is_err(), "[C18] chained tag reaching beyond output_size is rejected");
 }
@@ -690,7 +685,13 @@ fn icc_tag_num_bound() {
     exp.bytes(&data[ICC_H..]);
     icc_expect_ok(&r, &exp);
     assert!(icc_decode(164, &[5, 0, 1, 32], &data).is_err(), "[C18,C01] more tags announced than 12-byte entries fit into output_size: rejected");
-    // varint 1 = zero tags: the count is still written
+}
+
+#[kani::proof]
+#[kani::unwind(200)]
+fn icc_tag_zero() {
+    // varint 1 = a tag list with zero tags: the count is still written, the list is still terminated by tagcode 0
+    let data: [u8; ICC_H + 32] = kani::any();
     let r = icc_decode(164, &[1, 0, 1, 32], &data);
     let mut exp = IccExp::with_header(164, &data);
     exp.be32(0);
@@ -701,25 +702,30 @@ fn icc_tag_num_bound() {
 #[kani::proof]
 #[kani::unwind(200)]
 fn icc_tag_invalid_code() {
-    // every tag command byte (any flag bits) whose tagcode is 21..=63
-    let t: u8 = kani::any();
-    kani::assume((t & 63) > 20);
-    let data: [u8; ICC_H + 8] = kani::any();
-    assert!(icc_decode(ICC_H + 4 + 12, &[2, t], &data).is_err(), "[C18,C01] unknown tagcode is rejected");
-    kani::cover!(t == 21);
-    kani::cover!(t == 255);
+    // tagcodes are 0 (end), 1 (literal), 2, 3 (triples), 4..=20 (icc_tag_shortcuts); 21..=63 are unknown, whatever the flags
+    // (zero tags announced and the profile is complete after the count: the unknown tagcode is the only thing wrong)
+    let data: [u8; ICC_H] = kani::any();
+    assert!(icc_decode(ICC_H + 4, &[1, 21], &data).is_err(), "[C18,C01] unknown tagcode 21 is rejected");
+    assert!(icc_decode(ICC_H + 4, &[1, 63 | 64 | 128, 0, 0], &data).is_err(), "[C18,C01] unknown tagcode 63 is rejected");
 }
 
 #[kani::proof]
 #[kani::unwind(200)]
 fn icc_tag_truncated() {
     let data: [u8; ICC_H + 3] = kani::any();
-    // literal tag with only 3 data bytes left
+    // literal tag with only 3 data bytes left (4 bytes: icc_tag_literal)
     assert!(icc_decode(ICC_H + 4 + 12, &[2, 1], &data).is_err(), "[C18,C01] literal tag without its 4 name bytes is rejected");
     // explicit-start flag without the varint
     assert!(icc_decode(ICC_H + 4 + 12, &[2, 4 | 64], &data).is_err(), "[C18,C01] tag command without its start varint is rejected");
-    // explicit-size flag without the varint
+}
+
+#[kani::proof]
+#[kani::unwind(200)]
+fn icc_tag_truncated_more() {
+    let data: [u8; ICC_H + 3] = kani::any();
     assert!(icc_decode(ICC_H + 4 + 12, &[2, 4 | 128], &data).is_err(), "[C18,C01] tag command without its size varint is rejected");
+    assert!(icc_decode(ICC_H + 4 + 12, &[2, 4 | 64 | 128, 0], &data).is_err(), "[C18,C01] tag command without its size varint is rejected");
+    assert!(icc_decode(ICC_H + 4, &[1, 40], &data[..ICC_H]).is_err(), "[C18,C01] unknown tagcode 40 is rejected");
 }
 
 #[kani::proof]
